@@ -46,7 +46,7 @@ def cases(tier, seed):
         r = random.Random("C06/%d/%s/%d" % (seed, tier, k))
         mem = corecfg.synth_mem(r, fams[k % len(fams)])
         mem["bankbits"] = r.choice([1, 2, 3, 4]) if mem["nphases"] < 4 else r.choice([1, 2, 3])
-        mem["colbits"] = [8, 9, 10, 11, 12, 10, 11, 9][(k // 2) % 8]
+        mem["colbits"] = [8, 9, 10, 11, 12, 12, 11, 9][(k // 2 + seed) % 8]
         mem["rowbits"] = r.choice([11, 12, 13, 14, 15, 16]) if tier == "thorough" else r.choice([11, 12, 13, 14])
         if mem["colbits"] > 10:
             mem["rowbits"] = max(mem["rowbits"], mem["colbits"] + 1)
